@@ -17,14 +17,14 @@ impl From<String> for Value {
     }
 }
 
-impl From<serde_yaml::Value> for Value {
-    /// Converts a `serde_yaml::Value` into a `Value`.
+impl Value {
+    /// Converts a `serde_yaml::Value` into a `Value`, returning an error for YAML which can't be
+    /// represented: tagged values, and mappings in which a key is written both with and without
+    /// the constant marker.
     ///
     /// `serde_yaml::Value::String` is always converted into `Value::String`.
-    ///
-    /// `serde_yaml::Tagged` values are not supported yet.
-    fn from(v: serde_yaml::Value) -> Self {
-        match v {
+    pub(crate) fn try_from_yaml(v: serde_yaml::Value) -> anyhow::Result<Self> {
+        Ok(match v {
             serde_yaml::Value::Null => Self::Null,
             serde_yaml::Value::Bool(b) => Self::Bool(b),
             serde_yaml::Value::Number(n) => Self::Number(n),
@@ -32,15 +32,34 @@ impl From<serde_yaml::Value> for Value {
             serde_yaml::Value::Sequence(s) => {
                 let mut seq: Vec<Value> = Vec::with_capacity(s.len());
                 for v in s {
-                    seq.push(Value::from(v));
+                    seq.push(Value::try_from_yaml(v)?);
                 }
                 Self::Sequence(seq)
             }
-            serde_yaml::Value::Mapping(m) => Self::Mapping(Mapping::from(m)),
-            serde_yaml::Value::Tagged(_) => {
-                todo!("Tagged YAML values are not supported yet");
+            serde_yaml::Value::Mapping(m) => Self::Mapping(Mapping::try_from_yaml(m)?),
+            serde_yaml::Value::Tagged(t) => {
+                return Err(anyhow::anyhow!(
+                    "Tagged YAML values are not supported yet (tag {})",
+                    t.tag
+                ));
             }
-        }
+        })
+    }
+}
+
+impl From<serde_yaml::Value> for Value {
+    /// Converts a `serde_yaml::Value` into a `Value`.
+    ///
+    /// `serde_yaml::Value::String` is always converted into `Value::String`.
+    ///
+    /// `serde_yaml::Tagged` values are not supported yet.
+    ///
+    /// # Panics
+    ///
+    /// Panics for YAML which can't be represented, see [`Value::try_from_yaml`]. Parsing entry
+    /// points (`Mapping::from_str`, inventory loading) use the fallible conversion instead.
+    fn from(v: serde_yaml::Value) -> Self {
+        Self::try_from_yaml(v).unwrap()
     }
 }
 
